@@ -84,7 +84,7 @@ def _write_model(workdir, name, extends, cfg, defs=""):
 
 
 def run_tlc(workdir, name, extends, cfg, defs="", workers=8, timeout=600, env_extra=None, deque=False,
-            heap="6g", simulate=None, coverage=False, collect_replay=False):
+            heap="6g", simulate=None, coverage=False, collect_replay=False, seed=None):
     """Runs TLC on a generated wrapper module `name` that EXTENDS `extends` (a module in /verif/tla)."""
     _write_model(workdir, name, extends, cfg, defs)
     meta = os.path.join(workdir, "states_" + name)
@@ -98,7 +98,7 @@ def run_tlc(workdir, name, extends, cfg, defs="", workers=8, timeout=600, env_ex
     if coverage:
         cmd += ["-coverage", "1"]
     if simulate:
-        cmd += ["-simulate", simulate]
+        cmd += ["-simulate", simulate, "-depth", "1000", "-seed", str(seed if seed is not None else 1)]
     cmd += ["-config", name + ".cfg", name + ".tla"]
     env = dict(os.environ)
     env.pop("JAVA_TOOL_OPTIONS", None)
@@ -127,6 +127,10 @@ def run_tlc(workdir, name, extends, cfg, defs="", workers=8, timeout=600, env_ex
         if m:
             res.generated = int(m.group(1))
             res.distinct = int(m.group(2))
+        m = re.match(r"^The number of states generated: (\d+)", line)
+        if m:
+            res.generated = int(m.group(1))
+            res.distinct = max(res.distinct, len(res.replay_lines))
         m = re.match(r"^The depth of the complete state graph search is (\d+)", line)
         if m:
             res.depth = int(m.group(1))
@@ -150,10 +154,10 @@ def tlc_must_pass(res, what):
         raise ToolError("%s: TLC error:\n%s" % (what, res.error))
 
 
-def generate_cases(workdir, name, extends, cfg, defs="", timeout=600, workers=1, simulate=None, heap="6g"):
+def generate_cases(workdir, name, extends, cfg, defs="", timeout=600, workers=1, simulate=None, heap="6g", seed=None):
     """Runs a generator model and writes the printed behaviours to <workdir>/<name>.cases.ndjson."""
     res = run_tlc(workdir, name, extends, cfg, defs=defs, workers=workers, timeout=timeout, collect_replay=True,
-                  simulate=simulate, heap=heap)
+                  simulate=simulate, heap=heap, seed=seed)
     tlc_must_pass(res, "generator " + name)
     path = os.path.join(workdir, name + ".cases.ndjson")
     with open(path, "w") as f:
